@@ -325,8 +325,59 @@ def controls_service(ctx):
         ctx.control("spec: " + what, r.violated == inv)
 
 
+def run_replay(path):
+    """./check G04 --replay replays/G04-xxxx.json : re-executes a stored failing walk (binding R) on the real objects,
+    following the same labelled transitions in a freshly dumped state graph."""
+    import ast
+    from .. import g04_boot as gb
+    from .. import g04_world as gw
+    with open(path, encoding="utf-8") as f:
+        doc = json.load(f)
+    obj = doc.get("replay") or {}
+    if "cfg" not in obj or "actions" not in obj:
+        print("replay files of recorded runs are not re-executable on their own: re-run ./check G04 (seed %s)" % doc["seed"])
+        return 2
+    cfg = obj["cfg"]
+    boot = cfg.startswith("LifecycleBoot_")
+    tag = cfg.split("_", 1)[1][:-4]
+    global JOBS
+    JOBS = TlcJobs()
+    JOBS.submit("LifecycleBootMC.tla" if boot else "LifecycleMC.tla", cfg, dump=True)
+    r, g = JOBS.get(cfg)
+    if not r.ok:
+        raise MachineryError("%s: TLC reports %s" % (cfg, r.violated))
+    loop = gw.new_loop()
+    w = gb.BootWorld(loop, BOOT_CONSTS[tag]) if boot else gw.SvcWorld(loop, SVC_CONSTS[tag])
+    view = (lambda st: gb.spec_view(st, BOOT_CONSTS[tag])) if boot else gw.spec_view
+    cur = g.init[0]
+    still = False
+    try:
+        for lbl in obj["actions"]:
+            name, _, rest = lbl.partition("[")
+            args = tuple(ast.literal_eval("[" + rest))
+            nxt = [e for e in (g.edges[i] for i in g.out.get(cur, ())) if e[1] == name and tuple(e[2]) == args]
+            if not nxt:
+                raise MachineryError("replay: %s is not a transition of the specification here" % lbl)
+            w.act(name, args)
+            d = diff_states(view(g.states[nxt[0][3]]), w.project())
+            print("%-28s %s" % (lbl, "conforms" if not (d or w.problems) else "DIVERGES %s %s" % (d, w.problems)))
+            if d or w.problems:
+                still = True
+                break
+            cur = nxt[0][3]
+    finally:
+        w.close()
+        from .. import vloop
+        vloop.uninstall()
+    print("VIOLATION property=G04 replay=%s (still diverges)" % path if still else "G04 replay: conforms now")
+    return 1 if still else 0
+
+
 def run(tier, seed, replay=None):
     setup_repo_path()
+    if replay:
+        warnings.simplefilter("ignore")
+        return run_replay(replay)
     warnings.simplefilter("ignore", RuntimeWarning)
     warnings.simplefilter("ignore", ResourceWarning)
     from .. import g04_world as gw
@@ -359,10 +410,10 @@ def run(tier, seed, replay=None):
     if not ctx.violations:
         replay_service(ctx, "Lifecycle_anon.cfg", "anon", 3000 if quick else None, loop)
     if not ctx.violations:
-        replay_service(ctx, "Lifecycle_b.cfg", "b", 40000 if quick else None, loop)
+        replay_service(ctx, "Lifecycle_b.cfg", "b", 25000 if quick else None, loop)
     controls_boot(ctx)
-    for tag, cap in (("d", None), ("dd", None), ("du", 2000 if quick else None),
-                     ("u", 1200 if quick else None)):
+    for tag, cap in (("d", None), ("dd", None), ("du", 1500 if quick else None),
+                     ("u", 1000 if quick else None)):
         if not ctx.violations:
             replay_boot(ctx, tag, cap, loop)
     for wi in runs:
